@@ -105,7 +105,7 @@ fn gen_prog(t: &mut Tape, st: &mut Stats) -> Prog {
             Prog { text, kind: Kind::Nested, on_error: t.flip(), subs }
         }
         k => {
-            let p = gen_program(t, GenCfg { functions: false, failures: false, max_depth: 4, max_stmts: 30, long_loops: false, probe_conditions: false });
+            let p = gen_program(t, GenCfg { functions: false, failures: false, max_depth: 4, max_stmts: 30, long_loops: false, probe_conditions: false, lib_calls: false });
             let r = render(&p, t, false);
             if k == 1 {
                 Prog { text: r.text, kind: Kind::Structured, on_error: false, subs: vec![] }
